@@ -7,17 +7,3 @@ Set Printing Width 100000000.
 Set Printing Depth 100000000.
 Fixpoint bs (l : list nat) : string := match l with [] => EmptyString | n :: r => String (Ascii.ascii_of_nat n) (bs r) end.
 Definition T_ (b : bool) : string := if b then "T" else "F".
-Definition t200 : pt := (mkPacket (mkPtok 37 "MetaData" 1 0 0) (Some (mkPtok 3 "}" 66 0 224)) [(DMeta (mkMetaDef (mkSpan (mkPtok 37 "MetaData" 1 0 0) (mkPtok 3 "}" 3 0 8)) (mkPtok 37 "MetaData" 1 0 0) (mkPtok 42 "Types" 1 9 1) (mkPtok 2 "{" 1 15 2) [(MIDecl (mkMetaDecl (mkSpan (mkPtok 12 "char[" 2 4 3) (mkPtok 40 "," 2 22 7)) (TyFixed (mkSpan (mkPtok 12 "char[" 2 4 3) (mkPtok 13 "]" 2 12 5)) (mkFixedString (mkSpan (mkPtok 12 "char[" 2 4 3) (mkPtok 13 "]" 2 12 5)) (mkPtok 12 "char[" 2 4 3) (mkPtok 30 "1" 2 10 4) (mkPtok 13 "]" 2 12 5))) (mkPtok 42 "Account" 2 14 6) None (mkPtok 40 "," 2 22 7)))] (mkPtok 3 "}" 3 0 8))); (DPacket (mkPacketDef (mkSpan (mkPtok 35 "packet" 5 0 9) (mkPtok 3 "}" 10 0 29)) None (mkPtok 35 "packet" 5 0 9) (mkPtok 42 "Party" 5 7 10) (mkPtok 2 "{" 5 13 11) [(mkFieldWithAttr (mkSpan (mkPtok 9 "@tag(" 6 4 12) (mkPtok 40 "," 6 36 18)) [(FATag (mkSpan (mkPtok 9 "@tag(" 6 4 12) (mkPtok 6 ")" 6 15 14)) (mkTagAttr (mkSpan (mkPtok 9 "@tag(" 6 4 12) (mkPtok 6 ")" 6 15 14)) (mkPtok 9 "@tag(" 6 4 12) (mkPtok 30 "1128" 6 10 13) (mkPtok 6 ")" 6 15 14)))] (MetaField (mkSpan (mkPtok 23 "uint64" 6 17 15) (mkPtok 40 "," 6 36 18)) None (mkMetaDecl (mkSpan (mkPtok 23 "uint64" 6 17 15) (mkPtok 40 "," 6 36 18)) (TyBasic (mkSpan (mkPtok 23 "uint64" 6 17 15) (mkPtok 23 "uint64" 6 17 15)) (mkBasicType (mkSpan (mkPtok 23 "uint64" 6 17 15) (mkPtok 23 "uint64" 6 17 15)) (mkPtok 23 "uint64" 6 17 15))) (mkPtok 42 "msg_type" 6 24 16) (Some (mkPtok 43 "``" 6 33 17)) (mkPtok 40 "," 6 36 18)))); (mkFieldWithAttr (mkSpan (mkPtok 42 "Account" 7 4 19) (mkPtok 40 "," 7 14 21)) [] (ObjectField (mkSpan (mkPtok 42 "Account" 7 4 19) (mkPtok 40 "," 7 14 21)) None (mkPtok 42 "Account" 7 4 19) (Some (mkPtok 42 "b" 7 12 20)) None (mkPtok 40 "," 7 14 21))); (mkFieldWithAttr (mkSpan (mkPtok 36 "repeat" 8 4 22) (mkPtok 40 "," 8 26 25)) [] (ObjectField (mkSpan (mkPtok 36 "repeat" 8 4 22) (mkPtok 40 "," 8 26 25)) (Some (mkPtok 36 "repeat" 8 4 22)) (mkPtok 42 "Account" 8 11 23) (Some (mkPtok 42 "leaves" 8 19 24)) None (mkPtok 40 "," 8 26 25))); (mkFieldWithAttr (mkSpan (mkPtok 24 "int8" 9 4 26) (mkPtok 40 "," 9 15 28)) [] (MetaField (mkSpan (mkPtok 24 "int8" 9 4 26) (mkPtok 40 "," 9 15 28)) None (mkMetaDecl (mkSpan (mkPtok 24 "int8" 9 4 26) (mkPtok 40 "," 9 15 28)) (TyBasic (mkSpan (mkPtok 24 "int8" 9 4 26) (mkPtok 24 "int8" 9 4 26)) (mkBasicType (mkSpan (mkPtok 24 "int8" 9 4 26) (mkPtok 24 "int8" 9 4 26)) (mkPtok 24 "int8" 9 4 26))) (mkPtok 42 "venue" 9 9 27) None (mkPtok 40 "," 9 15 28))))] (mkPtok 3 "}" 10 0 29))); (DPacket (mkPacketDef (mkSpan (mkPtok 35 "packet" 11 0 30) (mkPtok 3 "}" 21 0 62)) None (mkPtok 35 "packet" 11 0 30) (mkPtok 42 "Fill" 11 7 31) (mkPtok 2 "{" 11 12 32) [(mkFieldWithAttr (mkSpan (mkPtok 9 "@tag(" 12 4 33) (mkPtok 40 "," 13 17 38)) [(FATag (mkSpan (mkPtok 9 "@tag(" 12 4 33) (mkPtok 6 ")" 12 13 35)) (mkTagAttr (mkSpan (mkPtok 9 "@tag(" 12 4 33) (mkPtok 6 ")" 12 13 35)) (mkPtok 9 "@tag(" 12 4 33) (mkPtok 30 "49" 12 10 34) (mkPtok 6 ")" 12 13 35)))] (ObjectField (mkSpan (mkPtok 42 "Party" 13 4 36) (mkPtok 40 "," 13 17 38)) None (mkPtok 42 "Party" 13 4 36) (Some (mkPtok 42 "symbol" 13 10 37)) None (mkPtok 40 "," 13 17 38))); (mkFieldWithAttr (mkSpan (mkPtok 42 "Party" 14 4 39) (mkPtok 40 "," 14 18 42)) [] (ObjectField (mkSpan (mkPtok 42 "Party" 14 4 39) (mkPtok 40 "," 14 18 42)) None (mkPtok 42 "Party" 14 4 39) (Some (mkPtok 42 "kind" 14 10 40)) (Some (mkPtok 43 "``" 14 15 41)) (mkPtok 40 "," 14 18 42))); (mkFieldWithAttr (mkSpan (mkPtok 42 "Hdr" 15 4 43) (mkPtok 40 "," 19 6 57)) [] (InerObjectField (mkSpan (mkPtok 42 "Hdr" 15 4 43) (mkPtok 40 "," 19 6 57)) None (InerObjectDecl (mkSpan (mkPtok 42 "Hdr" 15 4 43) (mkPtok 3 "}" 19 4 56)) (mkPtok 42 "Hdr" 15 4 43) (mkPtok 2 "{" 15 8 44) [(MetaField (mkSpan (mkPtok 14 "zchar[" 16 8 45) (mkPtok 40 "," 16 25 49)) None (mkMetaDecl (mkSpan (mkPtok 14 "zchar[" 16 8 45) (mkPtok 40 "," 16 25 49)) (TyFixed (mkSpan (mkPtok 14 "zchar[" 16 8 45) (mkPtok 13 "]" 16 18 47)) (mkFixedString (mkSpan (mkPtok 14 "zchar[" 16 8 45) (mkPtok 13 "]" 16 18 47)) (mkPtok 14 "zchar[" 16 8 45) (mkPtok 30 "16" 16 15 46) (mkPtok 13 "]" 16 18 47))) (mkPtok 42 "kind" 16 20 48) None (mkPtok 40 "," 16 25 49))); (ObjectField (mkSpan (mkPtok 42 "Account" 17 8 50) (mkPtok 40 "," 17 19 52)) None (mkPtok 42 "Account" 17 8 50) None (Some (mkPtok 43 "``" 17 16 51)) (mkPtok 40 "," 17 19 52)); (ObjectField (mkSpan (mkPtok 42 "Account" 18 8 53) (mkPtok 40 "," 18 25 55)) None (mkPtok 42 "Account" 18 8 53) (Some (mkPtok 42 "msg_type" 18 16 54)) None (mkPtok 40 "," 18 25 55))] (mkPtok 3 "}" 19 4 56)) (mkPtok 40 "," 19 6 57))); (mkFieldWithAttr (mkSpan (mkPtok 36 "repeat" 20 4 58) (mkPtok 40 "," 20 17 61)) [] (MetaField (mkSpan (mkPtok 36 "repeat" 20 4 58) (mkPtok 40 "," 20 17 61)) (Some (mkPtok 36 "repeat" 20 4 58)) (mkMetaDecl (mkSpan (mkPtok 29 "f64" 20 11 59) (mkPtok 40 "," 20 17 61)) (TyBasic (mkSpan (mkPtok 29 "f64" 20 11 59) (mkPtok 29 "f64" 20 11 59)) (mkBasicType (mkSpan (mkPtok 29 "f64" 20 11 59) (mkPtok 29 "f64" 20 11 59)) (mkPtok 29 "f64" 20 11 59))) (mkPtok 42 "b" 20 15 60) None (mkPtok 40 "," 20 17 61))))] (mkPtok 3 "}" 21 0 62))); (DPacket (mkPacketDef (mkSpan (mkPtok 35 "packet" 22 0 63) (mkPtok 3 "}" 35 0 117)) None (mkPtok 35 "packet" 22 0 63) (mkPtok 42 "Logon" 22 7 64) (mkPtok 2 "{" 22 13 65) [(mkFieldWithAttr (mkSpan (mkPtok 36 "repeat" 23 4 66) (mkPtok 40 "," 26 6 79)) [] (InerObjectField (mkSpan (mkPtok 36 "repeat" 23 4 66) (mkPtok 40 "," 26 6 79)) (Some (mkPtok 36 "repeat" 23 4 66)) (InerObjectDecl (mkSpan (mkPtok 42 "Sub" 23 11 67) (mkPtok 3 "}" 26 4 78)) (mkPtok 42 "Sub" 23 11 67) (mkPtok 2 "{" 23 15 68) [(ObjectField (mkSpan (mkPtok 42 "Account" 24 8 69) (mkPtok 40 "," 24 22 71)) None (mkPtok 42 "Account" 24 8 69) None (Some (mkPtok 43 "`doc`" 24 16 70)) (mkPtok 40 "," 24 22 71)); (MetaField (mkSpan (mkPtok 12 "char[" 25 8 72) (mkPtok 40 "," 25 32 77)) None (mkMetaDecl (mkSpan (mkPtok 12 "char[" 25 8 72) (mkPtok 40 "," 25 32 77)) (TyFixed (mkSpan (mkPtok 12 "char[" 25 8 72) (mkPtok 13 "]" 25 16 74)) (mkFixedString (mkSpan (mkPtok 12 "char[" 25 8 72) (mkPtok 13 "]" 25 16 74)) (mkPtok 12 "char[" 25 8 72) (mkPtok 30 "3" 25 14 73) (mkPtok 13 "]" 25 16 74))) (mkPtok 42 "a" 25 18 75) (Some (mkPtok 43 "`two words`" 25 20 76)) (mkPtok 40 "," 25 32 77)))] (mkPtok 3 "}" 26 4 78)) (mkPtok 40 "," 26 6 79))); (mkFieldWithAttr (mkSpan (mkPtok 9 "@tag(" 27 4 80) (mkPtok 40 "," 27 26 85)) [(FATag (mkSpan (mkPtok 9 "@tag(" 27 4 80) (mkPtok 6 ")" 27 12 82)) (mkTagAttr (mkSpan (mkPtok 9 "@tag(" 27 4 80) (mkPtok 6 ")" 27 12 82)) (mkPtok 9 "@tag(" 27 4 80) (mkPtok 30 "1" 27 10 81) (mkPtok 6 ")" 27 12 82)))] (ObjectField (mkSpan (mkPtok 42 "Account" 27 14 83) (mkPtok 40 "," 27 26 85)) None (mkPtok 42 "Account" 27 14 83) (Some (mkPtok 42 "seq" 27 22 84)) None (mkPtok 40 "," 27 26 85))); (mkFieldWithAttr (mkSpan (mkPtok 20 "u8" 28 4 86) (mkPtok 40 "," 28 16 88)) [] (MetaField (mkSpan (mkPtok 20 "u8" 28 4 86) (mkPtok 40 "," 28 16 88)) None (mkMetaDecl (mkSpan (mkPtok 20 "u8" 28 4 86) (mkPtok 40 "," 28 16 88)) (TyBasic (mkSpan (mkPtok 20 "u8" 28 4 86) (mkPtok 20 "u8" 28 4 86)) (mkBasicType (mkSpan (mkPtok 20 "u8" 28 4 86) (mkPtok 20 "u8" 28 4 86)) (mkPtok 20 "u8" 28 4 86))) (mkPtok 42 "msg_type" 28 7 87) None (mkPtok 40 "," 28 16 88)))); (mkFieldWithAttr (mkSpan (mkPtok 38 "match" 29 4 90) (mkPtok 40 "," 32 6 103)) [] (MatchField (mkSpan (mkPtok 38 "match" 29 4 90) (mkPtok 40 "," 32 6 103)) (mkMatchFieldDecl (mkSpan (mkPtok 38 "match" 29 4 90) (mkPtok 3 "}" 32 4 102)) (mkPtok 38 "match" 29 4 90) (mkPtok 42 "msg_type" 29 10 91) (mkPtok 17 "as" 29 19 92) (mkPtok 42 "Payload" 29 22 93) (mkPtok 2 "{" 29 30 94) [(mkMatchPair (mkSpan (mkPtok 30 "34" 30 8 95) (mkPtok 40 "," 30 18 98)) (MKDigits (mkPtok 30 "34" 30 8 95)) (mkPtok 39 ":" 30 11 96) (mkPtok 42 "Fill" 30 13 97) (Some (mkPtok 40 "," 30 18 98))); (mkMatchPair (mkSpan (mkPtok 30 "1" 31 8 99) (mkPtok 42 "Party" 31 12 101)) (MKDigits (mkPtok 30 "1" 31 8 99)) (mkPtok 39 ":" 31 10 100) (mkPtok 42 "Party" 31 12 101) None)] (mkPtok 3 "}" 32 4 102)) (mkPtok 40 "," 32 6 103))); (mkFieldWithAttr (mkSpan (mkPtok 36 "repeat" 33 4 104) (mkPtok 40 "," 33 30 110)) [] (MetaField (mkSpan (mkPtok 36 "repeat" 33 4 104) (mkPtok 40 "," 33 30 110)) (Some (mkPtok 36 "repeat" 33 4 104)) (mkMetaDecl (mkSpan (mkPtok 14 "zchar[" 33 11 105) (mkPtok 40 "," 33 30 110)) (TyFixed (mkSpan (mkPtok 14 "zchar[" 33 11 105) (mkPtok 13 "]" 33 20 107)) (mkFixedString (mkSpan (mkPtok 14 "zchar[" 33 11 105) (mkPtok 13 "]" 33 20 107)) (mkPtok 14 "zchar[" 33 11 105) (mkPtok 30 "3" 33 18 106) (mkPtok 13 "]" 33 20 107))) (mkPtok 42 "note" 33 22 108) (Some (mkPtok 43 "``" 33 27 109)) (mkPtok 40 "," 33 30 110)))); (mkFieldWithAttr (mkSpan (mkPtok 9 "@tag(" 34 4 111) (mkPtok 40 "," 34 25 116)) [(FATag (mkSpan (mkPtok 9 "@tag(" 34 4 111) (mkPtok 6 ")" 34 12 113)) (mkTagAttr (mkSpan (mkPtok 9 "@tag(" 34 4 111) (mkPtok 6 ")" 34 12 113)) (mkPtok 9 "@tag(" 34 4 111) (mkPtok 30 "7" 34 10 112) (mkPtok 6 ")" 34 12 113)))] (ObjectField (mkSpan (mkPtok 42 "Fill" 34 14 114) (mkPtok 40 "," 34 25 116)) None (mkPtok 42 "Fill" 34 14 114) (Some (mkPtok 42 "price" 34 19 115)) None (mkPtok 40 "," 34 25 116)))] (mkPtok 3 "}" 35 0 117))); (DPacket (mkPacketDef (mkSpan (mkPtok 35 "packet" 36 0 118) (mkPtok 3 "}" 54 0 186)) None (mkPtok 35 "packet" 36 0 118) (mkPtok 42 "Reject" 36 7 119) (mkPtok 2 "{" 36 14 120) [(mkFieldWithAttr (mkSpan (mkPtok 42 "Account" 37 4 121) (mkPtok 40 "," 37 30 124)) [] (ObjectField (mkSpan (mkPtok 42 "Account" 37 4 121) (mkPtok 40 "," 37 30 124)) None (mkPtok 42 "Account" 37 4 121) (Some (mkPtok 42 "price" 37 12 122)) (Some (mkPtok 43 "`two words`" 37 18 123)) (mkPtok 40 "," 37 30 124))); (mkFieldWithAttr (mkSpan (mkPtok 9 "@tag(" 38 4 125) (mkPtok 40 "," 39 14 130)) [(FATag (mkSpan (mkPtok 9 "@tag(" 38 4 125) (mkPtok 6 ")" 38 12 127)) (mkTagAttr (mkSpan (mkPtok 9 "@tag(" 38 4 125) (mkPtok 6 ")" 38 12 127)) (mkPtok 9 "@tag(" 38 4 125) (mkPtok 30 "1" 38 10 126) (mkPtok 6 ")" 38 12 127)))] (MetaField (mkSpan (mkPtok 20 "u8" 39 4 128) (mkPtok 40 "," 39 14 130)) None (mkMetaDecl (mkSpan (mkPtok 20 "u8" 39 4 128) (mkPtok 40 "," 39 14 130)) (TyBasic (mkSpan (mkPtok 20 "u8" 39 4 128) (mkPtok 20 "u8" 39 4 128)) (mkBasicType (mkSpan (mkPtok 20 "u8" 39 4 128) (mkPtok 20 "u8" 39 4 128)) (mkPtok 20 "u8" 39 4 128))) (mkPtok 42 "symbol" 39 7 129) None (mkPtok 40 "," 39 14 130)))); (mkFieldWithAttr (mkSpan (mkPtok 32 "@leftPad" 40 4 131) (mkPtok 40 "," 40 34 137)) [(FAPadding (mkSpan (mkPtok 32 "@leftPad" 40 4 131) (mkPtok 6 ")" 40 19 134)) (mkPaddingAttr (mkSpan (mkPtok 32 "@leftPad" 40 4 131) (mkPtok 6 ")" 40 19 134)) (mkPtok 32 "@leftPad" 40 4 131) (mkPtok 8 "(" 40 13 132) (Some (mkPtok 33 "'0'" 40 15 133)) (mkPtok 6 ")" 40 19 134)))] (ObjectField (mkSpan (mkPtok 42 "Account" 40 21 135) (mkPtok 40 "," 40 34 137)) None (mkPtok 42 "Account" 40 21 135) (Some (mkPtok 42 "kind" 40 29 136)) None (mkPtok 40 "," 40 34 137))); (mkFieldWithAttr (mkSpan (mkPtok 42 "Rec" 41 4 138) (mkPtok 40 "," 45 6 152)) [] (InerObjectField (mkSpan (mkPtok 42 "Rec" 41 4 138) (mkPtok 40 "," 45 6 152)) None (InerObjectDecl (mkSpan (mkPtok 42 "Rec" 41 4 138) (mkPtok 3 "}" 45 4 151)) (mkPtok 42 "Rec" 41 4 138) (mkPtok 2 "{" 41 8 139) [(MetaField (mkSpan (mkPtok 36 "repeat" 42 8 140) (mkPtok 40 "," 42 27 143)) (Some (mkPtok 36 "repeat" 42 8 140)) (mkMetaDecl (mkSpan (mkPtok 27 "int64" 42 15 141) (mkPtok 40 "," 42 27 143)) (TyBasic (mkSpan (mkPtok 27 "int64" 42 15 141) (mkPtok 27 "int64" 42 15 141)) (mkBasicType (mkSpan (mkPtok 27 "int64" 42 15 141) (mkPtok 27 "int64" 42 15 141)) (mkPtok 27 "int64" 42 15 141))) (mkPtok 42 "flags" 42 21 142) None (mkPtok 40 "," 42 27 143))); (ObjectField (mkSpan (mkPtok 42 "Account" 43 8 144) (mkPtok 40 "," 43 21 146)) None (mkPtok 42 "Account" 43 8 144) (Some (mkPtok 42 "kind" 43 16 145)) None (mkPtok 40 "," 43 21 146)); (MetaField (mkSpan (mkPtok 16 "char[]" 44 8 147) (mkPtok 40 "," 44 26 150)) None (mkMetaDecl (mkSpan (mkPtok 16 "char[]" 44 8 147) (mkPtok 40 "," 44 26 150)) (TyDynamic (mkSpan (mkPtok 16 "char[]" 44 8 147) (mkPtok 16 "char[]" 44 8 147)) (mkDynamicString (mkSpan (mkPtok 16 "char[]" 44 8 147) (mkPtok 16 "char[]" 44 8 147)) (mkPtok 16 "char[]" 44 8 147))) (mkPtok 42 "venue" 44 15 148) (Some (mkPtok 43 (string_of_bytes [96; 230; 182; 136; 230; 129; 175; 96]%N) 44 21 149)) (mkPtok 40 "," 44 26 150)))] (mkPtok 3 "}" 45 4 151)) (mkPtok 40 "," 45 6 152))); (mkFieldWithAttr (mkSpan (mkPtok 20 "u8" 46 4 153) (mkPtok 40 "," 46 16 155)) [] (MetaField (mkSpan (mkPtok 20 "u8" 46 4 153) (mkPtok 40 "," 46 16 155)) None (mkMetaDecl (mkSpan (mkPtok 20 "u8" 46 4 153) (mkPtok 40 "," 46 16 155)) (TyBasic (mkSpan (mkPtok 20 "u8" 46 4 153) (mkPtok 20 "u8" 46 4 153)) (mkBasicType (mkSpan (mkPtok 20 "u8" 46 4 153) (mkPtok 20 "u8" 46 4 153)) (mkPtok 20 "u8" 46 4 153))) (mkPtok 42 "msg_type" 46 7 154) None (mkPtok 40 "," 46 16 155)))); (mkFieldWithAttr (mkSpan (mkPtok 38 "match" 47 4 156) (mkPtok 40 "," 51 6 175)) [] (MatchField (mkSpan (mkPtok 38 "match" 47 4 156) (mkPtok 40 "," 51 6 175)) (mkMatchFieldDecl (mkSpan (mkPtok 38 "match" 47 4 156) (mkPtok 3 "}" 51 4 174)) (mkPtok 38 "match" 47 4 156) (mkPtok 42 "msg_type" 47 10 157) (mkPtok 17 "as" 47 19 158) (mkPtok 42 "Data" 47 22 159) (mkPtok 2 "{" 47 27 160) [(mkMatchPair (mkSpan (mkPtok 30 "8" 48 8 161) (mkPtok 40 "," 48 18 164)) (MKDigits (mkPtok 30 "8" 48 8 161)) (mkPtok 39 ":" 48 10 162) (mkPtok 42 "Party" 48 12 163) (Some (mkPtok 40 "," 48 18 164))); (mkMatchPair (mkSpan (mkPtok 18 "[" 49 8 165) (mkPtok 42 "Fill" 50 16 173)) (MKList (mkKeyList (mkSpan (mkPtok 18 "[" 49 8 165) (mkPtok 13 "]" 50 12 171)) (mkPtok 18 "[" 49 8 165) (mkPtok 30 "3" 49 10 166) [((mkPtok 40 "," 49 12 167), (mkPtok 30 "1" 49 14 168)); ((mkPtok 40 "," 49 16 169), (mkPtok 30 "13" 50 9 170))] (mkPtok 13 "]" 50 12 171))) (mkPtok 39 ":" 50 14 172) (mkPtok 42 "Fill" 50 16 173) None)] (mkPtok 3 "}" 51 4 174)) (mkPtok 40 "," 51 6 175))); (mkFieldWithAttr (mkSpan (mkPtok 29 "f64" 52 4 176) (mkPtok 40 "," 52 10 178)) [] (MetaField (mkSpan (mkPtok 29 "f64" 52 4 176) (mkPtok 40 "," 52 10 178)) None (mkMetaDecl (mkSpan (mkPtok 29 "f64" 52 4 176) (mkPtok 40 "," 52 10 178)) (TyBasic (mkSpan (mkPtok 29 "f64" 52 4 176) (mkPtok 29 "f64" 52 4 176)) (mkBasicType (mkSpan (mkPtok 29 "f64" 52 4 176) (mkPtok 29 "f64" 52 4 176)) (mkPtok 29 "f64" 52 4 176))) (mkPtok 42 "a" 52 8 177) None (mkPtok 40 "," 52 10 178)))); (mkFieldWithAttr (mkSpan (mkPtok 5 "@calculatedFrom(" 53 4 179) (mkPtok 40 "," 53 36 184)) [(FACalculatedFrom (mkSpan (mkPtok 5 "@calculatedFrom(" 53 4 179) (mkPtok 6 ")" 53 27 181)) (mkCalculatedFrom (mkSpan (mkPtok 5 "@calculatedFrom(" 53 4 179) (mkPtok 6 ")" 53 27 181)) (mkPtok 5 "@calculatedFrom(" 53 4 179) (mkPtok 31 """XOR""" 53 21 180) (mkPtok 6 ")" 53 27 181)))] (MetaField (mkSpan (mkPtok 20 "u8" 53 29 182) (mkPtok 40 "," 53 36 184)) None (mkMetaDecl (mkSpan (mkPtok 20 "u8" 53 29 182) (mkPtok 40 "," 53 36 184)) (TyBasic (mkSpan (mkPtok 20 "u8" 53 29 182) (mkPtok 20 "u8" 53 29 182)) (mkBasicType (mkSpan (mkPtok 20 "u8" 53 29 182) (mkPtok 20 "u8" 53 29 182)) (mkPtok 20 "u8" 53 29 182))) (mkPtok 42 "crc" 53 32 183) None (mkPtok 40 "," 53 36 184))))] (mkPtok 3 "}" 54 0 186))); (DPacket (mkPacketDef (mkSpan (mkPtok 34 "root" 56 0 188) (mkPtok 3 "}" 66 0 224)) (Some (mkPtok 34 "root" 56 0 188)) (mkPtok 35 "packet" 56 5 189) (mkPtok 42 "Leg" 56 12 190) (mkPtok 2 "{" 56 16 191) [(mkFieldWithAttr (mkSpan (mkPtok 22 "uint32" 57 4 192) (mkPtok 40 "," 57 36 197)) [] (LengthField (mkSpan (mkPtok 22 "uint32" 57 4 192) (mkPtok 40 "," 57 36 197)) (mkLengthFieldDecl (mkSpan (mkPtok 22 "uint32" 57 4 192) (mkPtok 40 "," 57 36 197)) (Some (TyBasic (mkSpan (mkPtok 22 "uint32" 57 4 192) (mkPtok 22 "uint32" 57 4 192)) (mkBasicType (mkSpan (mkPtok 22 "uint32" 57 4 192) (mkPtok 22 "uint32" 57 4 192)) (mkPtok 22 "uint32" 57 4 192)))) (mkPtok 42 "length" 57 11 193) (mkLengthOf (mkSpan (mkPtok 7 "@lengthOf(" 57 18 194) (mkPtok 6 ")" 57 34 196)) (mkPtok 7 "@lengthOf(" 57 18 194) (mkPtok 42 "Data" 57 29 195) (mkPtok 6 ")" 57 34 196)) None (mkPtok 40 "," 57 36 197)))); (mkFieldWithAttr (mkSpan (mkPtok 42 "Account" 58 4 198) (mkPtok 40 "," 58 12 199)) [] (ObjectField (mkSpan (mkPtok 42 "Account" 58 4 198) (mkPtok 40 "," 58 12 199)) None (mkPtok 42 "Account" 58 4 198) None None (mkPtok 40 "," 58 12 199))); (mkFieldWithAttr (mkSpan (mkPtok 22 "uint32" 59 4 201) (mkPtok 40 "," 59 15 203)) [] (MetaField (mkSpan (mkPtok 22 "uint32" 59 4 201) (mkPtok 40 "," 59 15 203)) None (mkMetaDecl (mkSpan (mkPtok 22 "uint32" 59 4 201) (mkPtok 40 "," 59 15 203)) (TyBasic (mkSpan (mkPtok 22 "uint32" 59 4 201) (mkPtok 22 "uint32" 59 4 201)) (mkBasicType (mkSpan (mkPtok 22 "uint32" 59 4 201) (mkPtok 22 "uint32" 59 4 201)) (mkPtok 22 "uint32" 59 4 201))) (mkPtok 42 "tpl" 59 11 202) None (mkPtok 40 "," 59 15 203)))); (mkFieldWithAttr (mkSpan (mkPtok 38 "match" 60 4 204) (mkPtok 40 "," 64 6 220)) [] (MatchField (mkSpan (mkPtok 38 "match" 60 4 204) (mkPtok 40 "," 64 6 220)) (mkMatchFieldDecl (mkSpan (mkPtok 38 "match" 60 4 204) (mkPtok 3 "}" 64 4 219)) (mkPtok 38 "match" 60 4 204) (mkPtok 42 "tpl" 60 10 205) (mkPtok 17 "as" 60 14 206) (mkPtok 42 "Data" 60 17 207) (mkPtok 2 "{" 60 22 208) [(mkMatchPair (mkSpan (mkPtok 30 "5" 61 8 209) (mkPtok 40 "," 61 18 212)) (MKDigits (mkPtok 30 "5" 61 8 209)) (mkPtok 39 ":" 61 10 210) (mkPtok 42 "Party" 61 12 211) (Some (mkPtok 40 "," 61 18 212))); (mkMatchPair (mkSpan (mkPtok 30 "8" 62 8 213) (mkPtok 42 "Party" 62 12 215)) (MKDigits (mkPtok 30 "8" 62 8 213)) (mkPtok 39 ":" 62 10 214) (mkPtok 42 "Party" 62 12 215) None); (mkMatchPair (mkSpan (mkPtok 30 "2" 63 8 216) (mkPtok 42 "Logon" 63 12 218)) (MKDigits (mkPtok 30 "2" 63 8 216)) (mkPtok 39 ":" 63 10 217) (mkPtok 42 "Logon" 63 12 218) None)] (mkPtok 3 "}" 64 4 219)) (mkPtok 40 "," 64 6 220))); (mkFieldWithAttr (mkSpan (mkPtok 42 "Party" 65 4 221) (mkPtok 40 "," 65 10 222)) [] (ObjectField (mkSpan (mkPtok 42 "Party" 65 4 221) (mkPtok 40 "," 65 10 222)) None (mkPtok 42 "Party" 65 4 221) None None (mkPtok 40 "," 65 10 222)))] (mkPtok 3 "}" 66 0 224)))]).
-Eval vm_compute in ("<<<W200_alias_short>>>" ++ sh_escaped (render (rw_alias_short t200)) "").
-Eval vm_compute in ("<<<W200_alias_long>>>" ++ sh_escaped (render (rw_alias_long t200)) "").
-Eval vm_compute in ("<<<W200_alias_long_opts>>>" ++ sh_escaped (render (rw_alias_long_opts t200)) "").
-Eval vm_compute in ("<<<W200_zchar>>>" ++ sh_escaped (render (rw_zchar t200)) "").
-Eval vm_compute in ("<<<W200_drop_default_pad>>>" ++ sh_escaped (render (rw_drop_default_pad t200)) "").
-Eval vm_compute in ("<<<W200_add_default_pad>>>" ++ sh_escaped (render (rw_add_default_pad t200)) "").
-Eval vm_compute in ("<<<W200_prefix_attr>>>" ++ sh_escaped (render (rw_prefix_attr t200)) "").
-Eval vm_compute in ("<<<W200_default_options>>>" ++ sh_escaped (render (rw_default_options t200)) "").
-Eval vm_compute in ("<<<W200_expand_keys>>>" ++ sh_escaped (render (rw_expand_keys t200)) "").
-Eval vm_compute in ("<<<W200_inline_meta>>>" ++ sh_escaped (render (rw_inline_meta t200)) "").
-Eval vm_compute in ("<<<W200_seps_all>>>" ++ sh_escaped (render (rw_seps_all t200)) "").
-Eval vm_compute in ("<<<W200_seps_none>>>" ++ sh_escaped (render (rw_seps_none t200)) "").
-Eval vm_compute in ("<<<W200_drop_docs>>>" ++ sh_escaped (render (rw_drop_docs t200)) "").
